@@ -287,6 +287,10 @@ class SeqEngine(object):
                     continue
                 exp = mdl.apply(op)
                 out, extra = self.exec(op)
+                if out == ("exc", "DoesNotTerminate"):
+                    self.violation({"C08"}, "liveness", "liveness:call-does-not-return:%s" % op["op"],
+                                   {"op": op, "msg": extra.get("msg")}, i)
+                    break
                 if self.check_monitor(op, i):
                     break
                 res.trace.append({"i": i, "op": op, "out": [out[0], _jsonable(out[1])],
